@@ -407,6 +407,12 @@ def run(ctx):
                  "harness/translate_mirp.py (ast -> Gallina printer for the plain-Python methods of class MIRP: __init__, "
                  "add_node, add_arc, add_nodes, add_travel_arcs, add_entry_arcs, add_exit_arcs, estimate_high_cost) and the "
                  "meaning given to its combinators in coq/theories/PyMirp.v")
+    import translate_examples as TE
+    ex = ctx.gen_step("examples", TE.translate, "C12_examples_gen",
+                      "harness/translate_examples.py (ast -> Gallina printer for the example builders mirp_g1.get_mirp and "
+                      "RandomMIRP.get_random_mirp as logs of the calls they make on their MIRP object; drawn values are oracle "
+                      "parameters) and the meaning given to its combinators in coq/theories/PyExamples.v")
+    TE.crosscheck(ctx, ex, recorded_calls)       # generated G1 call list at 3 horizons == the calls of the real get_mirp
     rng = ctx.rng
     n_canon = 140 if ctx.quick else 2100
     n_hist = 60 if ctx.quick else 900
